@@ -6,7 +6,7 @@ PROP = dict(
                  timeout=dict(quick=600, thorough=3000)),
         ],
         rule="the same seeded history (fixture at Friday 2024-03-08 12:00 UTC: lends, borrows, 2 vaults, liquidity pair + pool, an external "
-             "vault-reward program paying once a day; then 24 (thorough 120) blocks of 6-15 transactions: limit orders at 7 prices with repeats "
+             "vault-reward program and an external locker-reward program (two lockers) each paying once a day; then 24 (thorough 120) blocks of 6-15 transactions: limit orders at 7 prices with repeats "
              "so that several orders share a price, pool deposits, vault create / deposit / draw, a price drop at 2/3 of the history that triggers "
              "V2 liquidations, all wired block hooks at every block; two blocks out of three 6 s apart, the third 9 h 17 min later, so that 24 "
              "blocks span three days and cross the US daylight-saving switch of 2024-03-10 and several midnights of every zone used) replayed in "
